@@ -18,7 +18,7 @@ func TestMain(m *testing.M) {
 		// half of the run on a loaded machine
 		debug.SetGCPercent(800)
 	}
-	kit.TestMain(m, 7200, 150000)
+	kit.TestMain(m, 6200, 150000)
 }
 
 // v is a selector that resolves to the valid index k (k < size), n to the size itself (see (*exec).sel).
@@ -194,17 +194,19 @@ func fixed() []Case {
 func TestC09(t *testing.T) {
 	kit.Main(t, kit.Spec[Case]{
 		ID: "C09", Level: "exploration",
-		Rule: "a start table - four in five from CreateTable/AddTable (1-6 x 1-6, one in six past the single digits: 7-21 columns x 1-5 rows, 31-65 columns x 1-3 rows, or 7-65 rows x 1-4 columns; widths derived, given or of the wrong count; initial data absent, full, ragged, oversize), one in five read by OpenFromMemory from a .docx the harness writes itself (1-5 grid columns x 1-5 rows, one in seven 10-14 grid columns x 2-4 rows with cells spanning most of a row - w:gridSpan of two digits -, consecutive rows of one layout and a vertical merge of the widest cell; in 8 of 10 with ragged rows: some rows hold fewer cells than the grid, none more, one row is full; with or without pre-existing w:gridSpan cells (also the explicit w:gridSpan=1), a vertical merge written as restart/continue/bare w:vMerge, a nested table, cells without w:tcPr, two-paragraph and run-less cells) - and a history of 1-30 calls over the row/column/cell/merge/unmerge/row-property/copy/iterator API. Positions are state-independent selectors resolved against the current size: every valid index (counted from the start or from the end), -1, -2, n, n+1, inverted and single-cell ranges, broad ranges (the whole row / column but for at most two positions at either end, whatever the size), data shorter than / equal to / longer than the table. Hand-written histories run first (bounds of the plain model, merge/unmerge round trips, a ragged opened table, and four on tables of twelve columns / twelve to fourteen rows: a 10-wide merged block edited by row and column calls, positions 10+, a vertical merge over ten and more rows cut by DeleteRows). Before each call the table is deep-copied; the call is judged against that copy: no panic; error => deep-equal to the copy; success => grid invariants, accessors agree with the structure, and post = f(copy, arguments) for the plain rows-by-columns model (exact on rectangular tables and for row edits, plain-row merges and cell-level calls in any state; invariants + untouched-cell rules where the API leaves the addressed cell open on merged rows). On a state whose rows do not span the grid before the call (ragged) a grid invariant is demanded after the call only if it held before it, a row made by the call must span the grid, and column edits are judged by the plain model in every row that reaches the position when no cell spans two columns. A failure attributed to an open finding rolls the table back to the copy and the history continues. non-trivial = >= 2 successful structural edits, >= 1 successful merge or nested table, >= 1 rejected out-of-range call; distinct = distinct sequence of (call kind, outcome ok/err/kf, rectangular or not before the call)",
+		Rule: "a start table - five in six from CreateTable/AddTable (1-6 x 1-6, one in six past the single digits: 7-21 columns x 1-5 rows, 31-65 columns x 1-3 rows, or 7-65 rows x 1-4 columns; widths derived, given or of the wrong count; initial data absent, full, ragged, oversize), one in six read by OpenFromMemory from a .docx the harness writes itself (1-5 grid columns x 1-5 rows, one in seven 10-14 grid columns x 2-4 rows with cells spanning most of a row - w:gridSpan of two digits -, consecutive rows of one layout and a vertical merge of the widest cell; in 8 of 10 with ragged rows: some rows hold fewer cells than the grid, none more, one row is full; with or without pre-existing w:gridSpan cells (also the explicit w:gridSpan=1), a vertical merge written as restart/continue/bare w:vMerge, a nested table, cells without w:tcPr, cells whose w:tcPr holds no w:tcW (only w:gridSpan / w:vMerge, or nothing), two-paragraph and run-less cells) - and a history of 1-30 calls over the row/column/cell/merge/unmerge/row-property/copy/iterator API plus a save of the document. One case in six (always a created table of 4-6 x 3-5) carries a seam motif of up to three calls whose positions depend on one another: two merged blocks of 1-3 x 1-3 cells that touch (the second directly below the first at the same grid column, or directly right of it in the same rows; made by MergeCellsRange / Horizontal / Vertical, in either order) and then one call at the seam (a row or column deleted or inserted at the first or last line of a block, singly or as a range across the seam, or a block unmerged). Positions are state-independent selectors resolved against the current size: every valid index (counted from the start or from the end), -1, -2, n, n+1, inverted and single-cell ranges, broad ranges (the whole row / column but for at most two positions at either end, whatever the size), data shorter than / equal to / longer than the table. Hand-written histories run first (bounds of the plain model, merge/unmerge round trips, a ragged opened table, and four on tables of twelve columns / twelve to fourteen rows: a 10-wide merged block edited by row and column calls, positions 10+, a vertical merge over ten and more rows cut by DeleteRows). Before each call the table is deep-copied; the call is judged against that copy: no panic; error => deep-equal to the copy; success => grid invariants, accessors agree with the structure, and post = f(copy, arguments) for the plain rows-by-columns model (exact on rectangular tables and for row edits, plain-row merges and cell-level calls in any state; invariants + untouched-cell rules where the API leaves the addressed cell open on merged rows). On a state whose rows do not span the grid before the call (ragged) a grid invariant is demanded after the call only if it held before it, a row made by the call must span the grid, and column edits are judged by the plain model in every row that reaches the position when no cell spans two columns. At the end of every history (and at every save call inside it) the table is serialised - the whole document with ToBytes for every table read from a file and one in eight of the others, the table element alone through encoding/xml otherwise -, read back with archive/zip + encoding/xml only and reduced to (grid columns; per cell gridSpan, vMerge, number of paragraphs): each grid invariant that holds for the table in memory must hold for the written w:tbl. A failure attributed to an open finding rolls the table back to the copy and the history continues. non-trivial = >= 2 successful structural edits, >= 1 successful merge or nested table, >= 1 rejected out-of-range call; distinct = distinct sequence of (call kind, outcome ok/err/kf, rectangular or not before the call)",
 		Gen:  genCase, Run: run, Findings: findings, Fixed: fixed,
 		MustSee: map[string]float64{"history:successful-merge": 0.4, "history:merge-and-no-rollback": 0.25, "history:copy": 0.1, "pos:n": 0.3, "pos:n+1": 0.3,
 			"pos:negative": 0.3, "range:inverted": 0.1, "history:nested-table": 0.1, "history:non-rectangular-state": 0.2, "data:longer-than-table": 0.05,
 			"start:opened-ragged": 0.1, "start:opened-merged": 0.03, "ragged:rejected-structural-edit": 0.08, "ragged:accepted-structural-edit": 0.08,
+			"history:seam-motif": 0.08, "saved:judged-in-the-package": 0.15, "saved:judged-as-element": 0.4, "delrows:continuation-row-moves-under-a-row-with-a-merged-cell": 0.005,
 			"start:>=10-columns": 0.05, "start:>=10-rows": 0.015, "start:opened-with-gridSpan>=10": 0.005, "history:structural-edit-on-a-state-with-a-cell-spanning>=10": 0.01},
 		Assumptions: []string{
 			"a table has at least one row and every row at least one cell (the API's own documented refusal to delete the last row/column); a call whose row/column/range lies outside the table under every reading (negative, >= rows, >= grid width, inverted) must be refused, a call inside under every reading must be accepted, anything else (data longer than the table, single-cell merge ranges, a column index between a merged row's physical cell count and the grid width) may go either way",
 			"on a row with a horizontally merged cell the API does not say whether a column index counts physical cells or grid columns: cells right of a spanned cell are only held to the invariants and to 'at most one cell of that row changed'",
 			"the target cell's new content is demanded only where the API documents it (SetCellText on a one-paragraph cell sets the text, on other cells the text starts with it; formatted text replaces; Add* append; Clear* as documented)",
 			"tables read from a file: only what OpenFromMemory makes of a schema-valid w:tbl with w:tblPr and w:tblGrid whose rows are not wider than the grid; a case in which the reader does not deliver the table as written is counted (opened-not-as-written) and not judged (C03/C04/C06 judge the reader); tables without a grid or with rows wider than the grid are outside the domain",
+			"the saved form of the table is judged by the grid clauses only (rows span the declared grid, every cell has a paragraph, continuations sit under a matching start), and only those that hold in memory; what else the writer keeps of a cell (widths, texts, formats) is the subject of C01/C03; a document that cannot be saved at all is counted and not judged here",
 			"a table that arrives with ragged rows cannot be made a well-formed grid by one call: after a successful call a grid invariant (rows span the grid / cells have a paragraph / rows have a cell / continuation under a matching start) is demanded only if it held before the call; the error clause (an error leaves the table exactly as it was) and the no-panic clause are demanded in every state",
 		},
 	})
